@@ -223,6 +223,7 @@ func parseTxtList(txt []string) map[string]string {
 type recApp struct {
 	x    *Ctx
 	node string
+	rig  *hubRig
 
 	mu           sync.Mutex
 	writers      map[string]api.ShipConnectionDataWriterInterface
@@ -253,7 +254,21 @@ func (a *recApp) ServiceShipIDUpdate(ski string, id string) {
 	a.x.Ev("app-shipid", a.node, ski+"="+id, 0)
 }
 func (a *recApp) ServicePairingDetailUpdate(ski string, d *api.ConnectionStateDetail) {
-	a.x.Ev("app-pairing", a.node, ski, int(d.State()))
+	kind := "direct"
+	if l := simrt.CurrentLabel(); strings.Contains(l[strings.LastIndex(l, "/")+1:], "hub_shipconnection.go:") {
+		kind = "delayed"
+	}
+	seq := 0
+	if a.rig != nil {
+		a.rig.pmu.Lock()
+		if kind == "delayed" {
+			seq = a.rig.prod[d]
+		} else {
+			seq = a.rig.prodSeq
+		}
+		a.rig.pmu.Unlock()
+	}
+	a.x.Ev("app-pairing", a.node, ski+"|"+kind, int(d.State())*1000000+seq)
 }
 func (a *recApp) AllowWaitingForTrust(ski string) bool {
 	a.mu.Lock()
@@ -298,10 +313,63 @@ type hubRig struct {
 	eth   *ether
 	nodes map[string]*hubNode
 	order []string
+
+	pmu     sync.Mutex
+	prodSeq int
+	prod    map[*api.ConnectionStateDetail]int // production order of pairing details
+	connIDs map[any]int
+}
+
+func (r *hubRig) connID(c any) int {
+	r.pmu.Lock()
+	defer r.pmu.Unlock()
+	if id, ok := r.connIDs[c]; ok {
+		return id
+	}
+	id := len(r.connIDs) + 1
+	r.connIDs[c] = id
+	return id
+}
+
+func (r *hubRig) probe(name string, args []any) {
+	node := nodeOfLabel(simrt.CurrentLabel())
+	switch name {
+	case "api.ServiceDetails.SetConnectionStateDetail":
+		sd, _ := args[0].(*api.ServiceDetails)
+		d, _ := args[1].(*api.ConnectionStateDetail)
+		if sd == nil || d == nil {
+			return
+		}
+		r.pmu.Lock()
+		r.prodSeq++
+		seq := r.prodSeq
+		r.prod[d] = seq
+		r.pmu.Unlock()
+		r.x.Ev("pairing-produced", node, sd.SKI(), int(d.State())*1000000+seq)
+	case "hub.Hub.HandleConnectionClosed":
+		completed, _ := args[2].(bool)
+		c := 0
+		if completed {
+			c = 1
+		}
+		if conn, ok := args[1].(api.ShipConnectionInterface); ok && conn != nil {
+			r.x.Ev("hub-closed", node, fmt.Sprintf("conn%d", r.connID(conn)), c)
+		}
+	}
+}
+
+func nodeOfLabel(l string) string {
+	l = strings.TrimPrefix(l, "~")
+	if i := strings.IndexByte(l, ':'); i > 0 {
+		return l[:i]
+	}
+	return "?"
 }
 
 func newHubRig(x *Ctx) *hubRig {
-	r := &hubRig{x: x, eth: newEther(x), nodes: map[string]*hubNode{}}
+	r := &hubRig{x: x, eth: newEther(x), nodes: map[string]*hubNode{}, prod: map[*api.ConnectionStateDetail]int{}, connIDs: map[any]int{}}
+	hook := r.probe
+	simrt.ProbeHook.Store(&hook)
 	x.Net.OnDial = func(from, to, addr string) { x.Ev("dial", from, to, 0) }
 	mdns.VerifZeroconfFactory = func(m *mdns.MdnsManager, _ []net.Interface) api.MdnsProviderInterface {
 		for _, n := range r.nodes {
@@ -318,7 +386,7 @@ func newHubRig(x *Ctx) *hubRig {
 func (r *hubRig) addNode(name string) *hubNode {
 	idx := len(r.order) + 1
 	n := &hubNode{rig: r, name: name, ip: fmt.Sprintf("10.0.0.%d", idx), port: 4710 + idx, ready: make(chan struct{})}
-	n.app = &recApp{x: r.x, node: name, writers: map[string]api.ShipConnectionDataWriterInterface{}, allowWaiting: true}
+	n.app = &recApp{x: r.x, node: name, rig: r, writers: map[string]api.ShipConnectionDataWriterInterface{}, allowWaiting: true}
 	r.nodes[name] = n
 	r.order = append(r.order, name)
 	r.x.Net.AddHost(name, name+".local", n.ip)
